@@ -60,6 +60,14 @@ def generate(rng, tier, idx):
         'zero_size': rng.random() < 0.2,
         'bad_name': rng.choice(['WHIRLPOOL', 'FOO', 'sha256', 'SHA-512', 'MD4X', 'BLAKE3']),
     }
+    if rng.random() < 0.25:
+        # the requested list in arbitrary order and with a name given twice (`-H "SHA256 SHA256 SHA512"`)
+        hs = list(sc['hashes'])
+        for _ in range(rng.choice([1, 1, 2])):
+            hs.insert(rng.randrange(len(hs) + 1), rng.choice(hs))
+        if rng.random() < 0.5:
+            rng.shuffle(hs)
+        sc['hashes'] = hs
     if n > 70000 and sc['chunks'] in ('tiny', 1, 3):
         sc['chunks'] = 'mixed'
     return sc
